@@ -3,7 +3,7 @@
 # Runs <command> with VERIF_REPO_SRC pointing at a scratch copy of /repo/src with the patch applied.
 # The copy lives under /tmp and is removed afterwards; /repo is never touched.
 set -u
-patch="$1"; shift
+patch="$(readlink -f "$1")"; shift
 [ "$1" = "--" ] && shift
 d="$(mktemp -d /tmp/vsrc.XXXXXX)"
 mkdir -p "$d/src"
